@@ -48,6 +48,8 @@ pub enum T {
     Garbage,
     /// PUBLISH with retain flag
     PubRetain { qos: u8 },
+    /// PUBLISH with the DUP flag and a fixed packet id (a re-delivery, or what claims to be one)
+    PubDup { qos: u8, id: u16 },
     /// PUBLISH with a wildcard in the topic name
     PubWild,
 }
@@ -279,6 +281,14 @@ impl In {
                 let mut p = rf::publish(qos, id, "t", &[tag]);
                 if let Pkt::Publish { retain, .. } = &mut p {
                     *retain = true;
+                }
+                let b = enc(&p);
+                (Some(p), b, vec![], tag)
+            }
+            T::PubDup { qos, id } => {
+                let mut p = rf::publish(qos, id, "t", &[tag]);
+                if let Pkt::Publish { dup, .. } = &mut p {
+                    *dup = true;
                 }
                 let b = enc(&p);
                 (Some(p), b, vec![], tag)
